@@ -54,8 +54,10 @@ def run(rep, tier, seed):
                                         Classes=[K('K1')]), invariants=INVS, timeout=3000)
             ex = chk.generate('gen2', gen_consts(2), cassettes=('memory', 'file', 's3'), n_conc=4, all_paths=True,
                               cap=200000)
-            chk.generate('gen3', gen_consts(3, Classes=[K('K1')]),
-                         cassettes=('memory', 'file'), n_conc=2, sample=60000, cap=100000)
+            chk.generate('gen3', gen_consts(3, Classes=[K('K1', copyOn=True)], Bodies=['plain'], Vals=['v1'],
+                                            InCalls=[('ia1', 1), ('ia1', 2), ('ia2', 1), ('ia3', 0)], OutAliases=['oa1', 'oa2'],
+                                            OutResults=[('val', 'v1'), ('exc', 'E1')]),
+                         cassettes=('memory', 'file'), n_conc=1, sample=60000, cap=100000, max_states=400000)
             chk.generate('deep13', deep_consts(13), cassettes=('memory', 'file', 's3'), n_conc=2, sample=2000, cap=4000,
                          invariants=['TypeOK', 'ReplayFaithful', 'SameOutputs'])
             rep.exhaustive = bool(ex)
